@@ -77,6 +77,12 @@ def gen_model(r, with_delay, with_rules):
             m["params"]["pY"] = 2.5
             m["rules"].append({"type": "assignment", "target": "Y",
                                "expr": ["+", ["*", ["par", "pY"], ["sp", "Tot"]], ["num", 1.0]], "freq": "repeated"})
+        if seeds.rng(r.getrandbits(32), "volrule").random() < 0.5:
+            # a rule that reads the cell volume: it must see the volume the simulation runs at (1 where none is in play)
+            m["species"].append("W")
+            m["init"]["W"] = 0
+            m["rules"].append({"type": "assignment", "target": "W",
+                               "expr": ["+", ["*", ["num", 3.0], ["vol"]], ["sp", "Tot"]], "freq": "repeated"})
     return m
 
 
@@ -104,10 +110,10 @@ def gen_case(case_seed, cfg):
             "vnum": vnum, "vobj": vobj, "vcycle": vcycle, "lattice": None, "extra_calls": extra}
 
 
-def _first_row_expected(model, stochastic_mode):
+def _first_row_expected(model, stochastic_mode, vol=None):
     st = {s: float(model["init"].get(s, 0)) for s in model["species"]}
     pr = dict(model["params"])
-    rm.apply_rules(model, st, pr, 0.0, True, 1.0)
+    rm.apply_rules(model, st, pr, 0.0, True, 1.0, vol=vol)
     return st
 
 
@@ -304,9 +310,14 @@ def _check_result(case, lp, rows, t, vols, divided, dividing, stochastic_mode, s
         elif lp["volume"] == "true" and not np.all(vols == vols[0]):
             bad("volume_column_changes_without_a_growth_law", vols=np.asarray(vols)[:5].tolist())
     # first row = initial condition with assignment rules applied
-    exp = _first_row_expected(case["model"], stochastic_mode)
+    vol0 = None
+    if stochastic_mode and lp["volume"] != "off":
+        vol0 = 1.0 if lp["volume"] == "true" else case["vnum"]
+    exp = _first_row_expected(case["model"], stochastic_mode, vol0)
     got = {s: float(rows[0][species_order.index(s)]) for s in case["model"]["species"]}
     for s in exp:
+        if s == "W" and not stochastic_mode and lp["volume"] != "off":
+            continue        # (which volume a deterministic run shows to its rules is not part of the statement)
         if not rm.close(exp[s], got[s], 1e-9, 1e-12):
             bad("first_row_is_not_the_initial_condition", species=s, expected=exp[s], got=got[s])
             break
